@@ -607,23 +607,23 @@ func (pc *pconn) pump(dir string, src, dst net.Conn) {
 			}
 			continue
 		}
-		if dir == "c2s" && !control {
-			// forwarded under the lock that also guards injected frames, which go out at message boundaries only
-			pc.wmu.Lock()
-			_, werr := dst.Write(frame)
-			pc.c2sOpen = !fin
-			if fin {
-				for _, q := range pc.injectQ {
-					dst.Write(q)
+		// the frame is logged before it is forwarded: by the time an endpoint has acted on a message, the log holds it
+		forward := func() bool {
+			if dir == "c2s" && !control {
+				// forwarded under the lock that also guards injected frames, which go out at message boundaries only
+				pc.wmu.Lock()
+				_, werr := dst.Write(frame)
+				pc.c2sOpen = !fin
+				if fin {
+					for _, q := range pc.injectQ {
+						dst.Write(q)
+					}
+					pc.injectQ = nil
 				}
-				pc.injectQ = nil
+				pc.wmu.Unlock()
+				return werr == nil
 			}
-			pc.wmu.Unlock()
-			if werr != nil {
-				return
-			}
-		} else if !pc.write(dst, frame) {
-			return
+			return pc.write(dst, frame)
 		}
 
 		// logging / reassembly
@@ -641,6 +641,9 @@ func (pc *pconn) pump(dir string, src, dst net.Conn) {
 				pc.violation("%s close frame sent in the middle of the sender's own unfinished message (%d fragments, %d bytes so far)", dir, msgFrames, len(msgBuf))
 			}
 			pc.logMsg(dir, op, plain, 1)
+			if !forward() {
+				return
+			}
 			continue
 		}
 		if op != 0 {
@@ -657,6 +660,9 @@ func (pc *pconn) pump(dir string, src, dst net.Conn) {
 			pc.logMsg(dir, msgOp, msgBuf, msgFrames)
 			msgOp = 0
 			msgBuf = nil
+		}
+		if !forward() {
+			return
 		}
 	}
 }
